@@ -91,6 +91,7 @@ fn alphabet_for(prop: &str) -> Vec<Op> {
             Op::Flush,
             Op::FlushStalled,
             Op::Compact,
+            Op::CompactFail,
             Op::Reopen,
         ],
         _ => base,
